@@ -1,12 +1,13 @@
 ---- MODULE Gen_ParallelExec ----
 EXTENDS ParallelExec, Json
 \* a behaviour is complete when the dispatcher has returned; every step carries the predicted values
-Emit == (result # "run" /\ hist[Len(hist)].op \in {"exit", "topfail"}) => PrintT(<<"B", ToJson(hist)>>)
+Emit == (result # "run" /\ hist[Len(hist)].op \in {"exit", "topfail", "toprefuse"}) => PrintT(<<"B", ToJson(hist)>>)
 \* Random walks: TLC's simulator first picks one of the actions it has split Next into (it splits existential
 \* quantifiers over constant sets, so choosing a program would be |Progs| actions and the dispatcher would always
 \* run ahead of the goroutines); here the program choice is one action.
 GenNext == \/ TopFail
            \/ \E p \in {q \in Progs : disp >= 0} : Top(p)
+           \/ \E p \in {q \in Progs : disp >= 0} : TopRefuse(p)
            \/ Ensure
            \/ Spawn
            \/ \E t \in Tx : Begin(t)
@@ -22,4 +23,11 @@ HandOverShape ==
   /\ (disp >= 1 => (prog[1].world = "N" /\ prog[1].lock["x"] = "W" /\ prog[1].ops = << <<"w", "x">> >>))
   /\ (disp >= 2 => (prog[2].world = "N" /\ prog[2].lock["x"] = "W" /\ prog[2].ops = <<>>))
   /\ (disp >= 3 => (prog[3].world = "N" /\ prog[3].lock["x"] # "N" /\ prog[3].ops = << <<"r", "x">> >>))
+\* state constraint of the "retry after a committed world-lock transaction" generator: tx 1 holds the world write lock and is
+\* committed before tx 2 is dispatched (so the future of tx 2 has a base snapshot); tx 2 write-locks x, reads and then writes it, and
+\* its first attempt fails retryably: worldVirtualState.Reset has to restore x from the base snapshot (existing or not yet existing account)
+RetryShape ==
+  /\ (disp >= 1 => prog[1].world = "W")
+  /\ (disp >= 2 => (ph[1] = "committed" /\ prog[2].world = "N" /\ prog[2].fate = "retry1" /\ prog[2].lock["x"] = "W"
+                     /\ prog[2].ops = << <<"r", "x">>, <<"w", "x">> >>))
 ====
